@@ -243,6 +243,12 @@ func exprs(scope string, depth int) map[string][]typed {
 			add("BOOL", "("+e.text+" ~ ac1)", "aclmatch("+e.form+")")
 		}
 		for _, e := range pick("TIME") {
+			if d == 1 && e.form == "var" {
+				// TIME +/- RTIME as a term of a concatenation (the only place the grammar allows it without an assignment)
+				add("STRING", "\"at \" "+e.text+" + 5m \" GMT\"", "concat-timeplus("+e.form+")")
+				add("STRING", "\"at \" "+e.text+" - 5m \" GMT\"", "concat-timeminus("+e.form+")")
+				add("STRING", "\"at \" "+e.text+" + var.r1 \" GMT\"", "concat-timeplus-var("+e.form+")")
+			}
 			add("TIME", "ft("+e.text+")", "usersub:ft("+e.form+")")
 			add("TIME", "time.add("+e.text+", 10s)", "fn:time.add("+e.form+")")
 			add("STRING", "strftime({\"%s\"}, "+e.text+")", "fn:strftime("+e.form+")")
@@ -412,6 +418,20 @@ func gen(tier string, emit func(Case)) {
 			for _, h2 := range hs {
 				if h2 != h {
 					emit(Case{Scope: sc, Kind: "hist", Stmts: []string{"set " + h + " = " + h2 + ";", "set " + h + " = " + h + " \"z\";"}, Targets: []string{h}, Form: "copy-hdr-hdr-then-append"})
+				}
+			}
+		}
+		// C2. declare-with-initialiser, then modify either name: the other one must keep its value
+		for _, a := range locals {
+			for _, op := range assignOps {
+				for _, lit := range litsFor(a.typ) {
+					if !executable(sc, a.name, op, a.typ, []typed{{lit, "lit"}}) {
+						continue
+					}
+					emit(Case{Scope: sc, Kind: "hist", Stmts: []string{
+						fmt.Sprintf("declare local var.fresh %s = %s;", a.typ, a.name),
+						fmt.Sprintf("set var.fresh %s %s;", op, lit)},
+						Targets: nil, Form: fmt.Sprintf("declare-init-then-modify-copy %s %s", a.typ, op)})
 				}
 			}
 		}
